@@ -99,8 +99,9 @@ func c07(r *ev.Run) {
 	c07ConcurrentReconnect(r)
 	c07HealWhileDialing(r)
 	c07LossWhileAskingWaitsForRoom(r)
-	c07HostVanished(r)
-	r.Require("host_vanished_healed", 1)
+	if c07HostVanished(r) {
+		r.Require("host_vanished_healed", 1)
+	}
 	r.Require("loss_while_asking_waits_for_room_healed", 1)
 	r.Require("histories_judged", int64(reps*len(c07Faults)*3/4))
 	r.Require("new_connections_after_fault", int64(reps*3))
@@ -919,11 +920,12 @@ func c07LossWhileAskingWaitsForRoom(r *ev.Run) {
 // c07HostVanished: the host of a master vanishes - connects to its address time out (a listening socket whose accept queue is full:
 // the kernel drops the SYNs) - and its slots are taken over by another node. With the periodic refresh far away, the failed connects
 // are the proxy's only hint: the new layout must be fetched and the slots served by their new owner.
-func c07HostVanished(r *ev.Run) {
+// It returns false when connect timeouts cannot be emulated on this kernel (the accept queue could not be filled).
+func c07HostVanished(r *ev.Run) bool {
 	s, err := startSUT(r, false, 600000, 20)
 	if err != nil {
 		r.Internal("start sut: %v", err)
-		return
+		return true
 	}
 	defer s.Close()
 	reps := 2
@@ -935,13 +937,13 @@ func c07HostVanished(r *ev.Run) {
 		if !ok {
 			closeBH()
 			r.Inconclusive("host-vanished:cannot-emulate-connect-timeouts")
-			return
+			return false
 		}
 		cl, err := fakecluster.New(2, 0)
 		if err != nil {
 			closeBH()
 			r.Internal("fakecluster: %v", err)
-			return
+			return true
 		}
 		cl.AssignContiguous()
 		cl.LogArgs = false
@@ -967,7 +969,7 @@ func c07HostVanished(r *ev.Run) {
 			cl.Close()
 			closeBH()
 			r.Internal("service did not start: %v", err)
-			return
+			return true
 		}
 		func() {
 			defer closeBH()
@@ -1017,4 +1019,5 @@ func c07HostVanished(r *ev.Run) {
 			r.Case("host-vanished")
 		}()
 	}
+	return true
 }
